@@ -148,12 +148,19 @@ func history(r *ev.Run, rng *rand.Rand, store string, sample bool) {
 	slots := make([]*chanSlot, nCh)
 	for i := range slots {
 		n := 2 + rng.Intn(2)
+		if rng.Intn(10) == 0 {
+			n = []int{11, 12, 25, 101}[rng.Intn(4)] // key names depend on the participant count
+		}
 		w := mexplore.NewWorld(rng, n, rng.Intn(n), gen.AppKind(rng.Intn(3)), 1+rng.Intn(2))
 		s := &chanSlot{name: fmt.Sprintf("ch%d", i), w: w}
 		// n-1 distinct peers from the pool (fewer if the pool is small)
 		perm := rng.Perm(nPeers)
 		for j := 0; j < n-1 && j < nPeers; j++ {
 			s.peers = append(s.peers, peerPool[perm[j]])
+		}
+		if rng.Intn(6) == 0 {
+			// one node in two roles of the channel: its address is listed twice
+			s.peers = append(s.peers, s.peers[rng.Intn(len(s.peers))])
 		}
 		if i > 0 && rng.Intn(3) == 0 {
 			id := slots[rng.Intn(i)].w.Params.ID()
